@@ -392,6 +392,16 @@ def run_replicas(name, tier, seed, work):
             samples.append(json.loads(fh.readline()))
         src_stats.append(dict(source=src, paths=st['Paths'], positions=st['Lines'], replicas=st['Replicas'], disagreements=summary['disagreements']))
         log('[%s] %s: %d paths, %d log positions x %d replicas, %d disagreements (checked by TLC on the recorded trace)' % (name, src, st['Paths'], st['Lines'], st['Replicas'], summary['disagreements']))
+    # replicas of one process read the same wall clock: a dependence on it is looked for in the sources instead
+    rs = subprocess.run([VH, 'src-scan', '--file', REPO], stdout=subprocess.PIPE, stderr=subprocess.STDOUT, text=True, timeout=120)
+    if rs.returncode != 0:
+        raise Undecided('src-scan failed: %s' % rs.stdout[-1000:])
+    scan = json.loads(rs.stdout.strip().splitlines()[-1])
+    for f in scan:
+        disagreements += 1
+        mism.append(dict(kind='replicas', event=dict(type='source'), fields=['wall clock / unseeded randomness'], impl_ok=True, spec_ok=True,
+                         detail=dict(source='src-scan', path=f['file'], pos=f['line'], what=f['what']), path=[]))
+    log('[%s] source scan of x/ophost and x/opchild: %d reads of the wall clock outside telemetry, unseeded randomness' % (name, len(scan)))
     walk = dict(states=r0['distinct'], edges=lines, edges_ok=lines, replayed=lines, unreached_states=0, skipped_subtrees=0, by_type=by_type,
                 mismatches=mism[:50], n_mismatch=disagreements, samples=samples[:3], findings={}, finding_samples={}, sources=src_stats)
     return dict(name=name, tlc=dict(r0), walk=walk, meta=dict(tier=tier), scale='-', walker='det-run')
